@@ -382,6 +382,12 @@ where
             .store()
             .subslice_utf8_offset(self.text())
             .expect("subslice should succeed");
+        if abscursor > self.textlen() {
+            return Err(StamError::CursorOutOfBounds(
+                Cursor::BeginAligned(abscursor),
+                "utf8byte(): cursor lies beyond the text selection",
+            ));
+        }
         Ok(self.store().utf8byte(self.absolute_cursor(abscursor))? - beginbyte)
     }
 
@@ -513,8 +519,9 @@ where
         offset: &Offset,
     ) -> Result<ResultTextSelection<'store>, StamError> {
         let resource = self.resource(); //courtesy of ResultItem
-        let offset = self.absolute_offset(&offset)?; //turns the relative offset into an absolute one (i.e. offsets in TextResource)
-        resource.textselection(&offset)
+        //turns the relative offset into an absolute one (i.e. offsets in TextResource), this also checks that it lies within this text selection
+        let textselection = self.as_ref().textselection_by_offset(offset)?;
+        resource.textselection(&textselection.into())
     }
 }
 
@@ -573,6 +580,12 @@ where
             .store()
             .subslice_utf8_offset(self.text())
             .expect("subslice should succeed");
+        if abscursor > self.textlen() {
+            return Err(StamError::CursorOutOfBounds(
+                Cursor::BeginAligned(abscursor),
+                "utf8byte(): cursor lies beyond the text selection",
+            ));
+        }
         Ok(self.store().utf8byte(self.absolute_cursor(abscursor))? - beginbyte)
     }
 
@@ -703,8 +716,9 @@ where
         &'slf self,
         offset: &Offset,
     ) -> Result<ResultTextSelection<'store>, StamError> {
-        let offset = self.absolute_offset(&offset)?; //turns the relative offset into an absolute one (i.e. offsets in TextResource)
-        self.resource().textselection(&offset)
+        //turns the relative offset into an absolute one (i.e. offsets in TextResource), this also checks that it lies within this text selection
+        let textselection = self.inner().textselection_by_offset(offset)?;
+        self.resource().textselection(&textselection.into())
     }
 }
 
